@@ -73,7 +73,7 @@ func contractServes(ct *Contract, prop string) bool {
 	return false
 }
 
-var structuralKinds = regexp.MustCompile(`^(requires|ensures|assigns|callspec|ghostframe|loop\d+\.(inv-entry|inv-preserved|decreases))$`)
+var structuralKinds = regexp.MustCompile(`^(requires|ensures|assigns|callspec|atcall|ghostframe|loop\d+\.(inv-entry|inv-preserved|decreases))$`)
 
 func oblServes(o *Obligation, prop string) bool {
 	if hasTag(o.Tags, prop) {
